@@ -481,6 +481,15 @@ def st_api_case(draw):
             else:
                 args = [fn]
             ops.append(["line_rt", r.randrange(20), meth, args, rt] if rt else ["line", r.randrange(20), meth, args])
+    if gen.chance(r, 0.2):
+        # the field under which the Gfa files a line (name, external sequence of a fragment) is given a new
+        # value; what that leaves behind shows when the line or its segment is removed afterwards
+        keyed = {"gfa1": [("S", "name"), ("P", "path_name"), ("L", "ID")],
+                 "gfa2": [("S", "sid"), ("E", "eid"), ("G", "gid"), ("O", "pid"), ("U", "pid"), ("F", "external"), ("F", "external")]}[version]
+        rt, fn = gen.choice(r, keyed)
+        val = gen.choice(r, ["read2+", "read1-", "zz9+"]) if fn == "external" else gen.choice(r, ["new1", "B", "zz9", "e1", "*", "7"])
+        ops.append(["line_rt", r.randrange(20), "set", [fn, val], rt])
+        ops.append(gen.choice(r, [["line_rt", r.randrange(20), "disconnect", [], rt], ["gfa", "rm", gen.choice(r, ["A", "B"])]]))
     if gen.chance(r, 0.5):
         # what an edit left behind shows when lines are removed afterwards
         for _ in range(r.randint(1, 2)):
